@@ -68,6 +68,11 @@ theorem canonical_map (u : Val → Val) (f : Stairs P) (hf : f.WF) : (map u f).C
   ⟨wf_map u f hf, minimal_map u f⟩
 @[simp] theorem closed_map (u : Val → Val) (f : Stairs P) : (map u f).closed = f.closed := rfl
 
+theorem den_unop (u : UnOp) (f : Stairs P) (hf : f.WF) (st : Bool) (x : P) :
+    Den (unop u f) st x = u.eval (Den f st x) := den_map _ f hf st x
+theorem wf_unop (u : UnOp) (f : Stairs P) (hf : f.WF) : (unop u f).WF := wf_map _ f hf
+theorem canonical_unop (u : UnOp) (f : Stairs P) (hf : f.WF) : (unop u f).Canonical := canonical_map _ f hf
+
 /-! ### combine -/
 theorem den_combine (op : Val → Val → Val) (f g : Stairs P) (cl : Side) (hf : f.WF) (hg : g.WF)
     (st : Bool) (x : P) : Den (combine op f g cl) st x = op (Den f st x) (Den g st x) := by
